@@ -4,6 +4,7 @@ from .. import gen, core
 from ..real import hex6
 
 ID = "C11"
+STATEFUL = True     # some blocks keep a live object across lines
 LEAN_TARGETS = ["Cider.Props.C11", "Cider.Props.C11Real"]
 P = "Cider.C11."
 THEOREMS = [P + t for t in (
@@ -52,6 +53,9 @@ def call(s, rng, force_bad=False):
 
 
 def cases(rng, tier):
+    # the property's own queries AFTER other public calls on the same object (same answers as on a fresh one)
+    for c in gen.after_calls_cases(rng, 16 if tier == "quick" else 120, ['cplx WF 20 - 4 1 3', 'cplx LC 5 - 4 2 2', 'cplx LZW 8 - 5 1 3']):
+        yield c
     import itertools
     n = 5 if tier == "quick" else 7
     for L in range(1, n + 1):
@@ -82,6 +86,9 @@ def cases(rng, tier):
 
 
 def judge(case, reals, gens, specs):
+    if case.tags.get("kind") == "after-other-calls":
+        from ..runner import default_judge
+        return default_judge(None, case, reals, gens, specs)
     out = []
     r, g, s = reals[0], gens[0], specs[0]
     line = case.block[0].split(" ")
